@@ -2,7 +2,7 @@ from collections import OrderedDict
 import inspect
 import logging
 import pathlib
-from typing import Any, cast
+from typing import Any, cast, Optional, Set
 from typing_extensions import TYPE_CHECKING, Type
 
 import yaml
@@ -86,21 +86,30 @@ class Representer:
         logger.debug('End representing {}'.format(data))
         return represented
 
-    def __sweeten(self, dumper: 'Dumper', class_: Type, node: Node) -> None:
+    def __sweeten(self, dumper: 'Dumper', class_: Type, node: Node,
+                  done: Optional[Set[Type]] = None) -> None:
         """Applies the user's _yatiml_sweeten() function(s), if any.
 
         Sweetening is done for the base classes first, then for the
         derived classes, down the hierarchy to the class we're
-        constructing.
+        constructing. A base class that is reached via more than one
+        path (diamond inheritance) is sweetened only once.
 
         Args:
             dumper: The dumper that is dumping this object.
             class_: The type of the object to be dumped.
             represented_object: The object to be dumped.
+            done: Classes that were sweetened already.
         """
+        if done is None:
+            done = set()
+        done.add(class_)
+
         for base_class in class_.__bases__:
-            if base_class in dumper.yaml_representers:
-                self.__sweeten(dumper, base_class, node)
+            if (
+                    base_class in dumper.yaml_representers and
+                    base_class not in done):
+                self.__sweeten(dumper, base_class, node, done)
         if '_yatiml_sweeten' in class_.__dict__:
             logger.debug('Sweetening {} for class {}'.format(
                 node, class_.__name__))
